@@ -519,6 +519,35 @@ theorem c07_normalised (disable : Bool) (lower : List Char → List Char) (filte
   unfold reprocess
   cases disable <;> simp [hl]
 
+/-! ### the name as typed must not reach the backend (seeded variant, round 2) -/
+
+/-- a two-entry htpasswd file with a legacy mixed-case entry -/
+def legacyFile : List Char → Option HtEntry := fun n =>
+  if n = "alice".toList then some { bcrypt2y := true, matchesPw := 1 }
+  else if n = "Alice".toList then some { bcrypt2y := true, matchesPw := 2 }
+  else none
+
+def lowerAlice : List Char → List Char := fun n => if n = "Alice".toList then "alice".toList else n
+
+/-- the typed spelling `Alice` as a store key of its own (5), the normalised user being 0; the
+directory itself is case-insensitive, so both name the same entry -/
+def typedKeyHistory (typedKey : User) : List Op :=
+  [.setServers [.up], .setPats [.entry], .changePw 0 (some 1), .changePw 5 (some 1), .login typedKey 1,
+   .changePw 0 (some 3), .changePw 5 (some 3), .login 0 1, .sync, .setServers [.down]]
+
+/-- **Asking the backend about the name as typed breaks the property** (a reviewer's seeded change in
+`checkAuth`: identity = normalised name, backend = typed name). htpasswd: `Alice` + the legacy
+entry's password is accepted and identity `alice` granted although the backend rejects it for
+`alice`; through `appCheck` it is rejected. LDAP: the hash cached under the typed key is not evicted
+by the directory's rejection for the normalised user and is accepted offline; with the normalised key
+everywhere the same history ends in a rejection. -/
+theorem c07_typed_name_counterexample :
+    htpasswdAuth (some legacyFile) "Alice".toList 2 = .accept ∧
+    appCheck (reprocess false lowerAlice none) (htpasswdAuth (some legacyFile)) "Alice".toList 2 = .reject ∧
+    lastLogin repaired (typedKeyHistory 5) 5 1 = some true ∧
+    lastLogin repaired (typedKeyHistory 0) 0 1 = some false := by
+  decide
+
 /-! ## non-vacuity -/
 
 /-- the hypotheses are satisfiable and the offline path does accept: a confirmed login, both servers
